@@ -4275,8 +4275,9 @@ class PyCdlib:
             reserve_pvd.new()
             # The Reserve Volume Descriptor Sequence is a copy of the Main
             # one, so it must carry the same (partly random) Volume Set
-            # Identifier.
+            # Identifier and the same Recording Date and Time.
             reserve_pvd.vol_set_ident = pvd.vol_set_ident
+            reserve_pvd.recording_date = pvd.recording_date
             self.udf_reserve_descs.pvds.append(reserve_pvd)
 
             reserve_impl_use = udfmod.UDFImplementationUseVolumeDescriptor()
